@@ -126,6 +126,9 @@ fn any_len() -> BoxedStrategy<usize> {
         4 => (0usize..480, 0usize..5).prop_map(|(ci, d)| (crate::gens::Cell::from_index(ci).cap() + d).saturating_sub(2)),
         1 => prop_oneof![Just(7089usize), Just(7090), Just(7088), Just(4296), Just(4297), Just(2953), Just(2954), Just(8000), Just(0), Just(1)],
         1 => 0usize..=8000,
+        // far beyond capacity, around the places where a narrowed length would wrap into range
+        1 => (prop_oneof![Just(65_536usize), Just(131_072), Just(65_535), Just(262_144)], 0usize..7200).prop_map(|(b, k)| b + k),
+        1 => prop_oneof![Just(65_535usize), Just(65_536), Just(65_537), Just(70_000), Just(1usize << 20)],
     ]
     .boxed()
 }
